@@ -117,7 +117,7 @@ func corpus() []entry {
 	// compositions: binary/conditional/index/call/splat around pairs of atoms
 	small := []string{`a`, `b`, `l`, `o.l`, `"x${a}"`, `[b]`, `{k = a}`, `upper(a)`}
 	for _, x := range small {
-		for _, y := range small[:4] {
+		for _, y := range small[:3] {
 			out = append(out, entry{"expr", x + " == " + y})
 			out = append(out, entry{"expr", "c ? " + x + " : " + y})
 			out = append(out, entry{"expr", "[for z in " + y + " : " + x + "]"})
